@@ -10,6 +10,7 @@ import (
 	"net/http"
 	"net/url"
 	"strings"
+	"sync"
 	"syscall"
 	"time"
 
@@ -249,7 +250,8 @@ func NewUpstream(addr string, opt Opt) (_ Upstream, err error) {
 			quicConfig := newDefaultClientQuicConfig()
 			quicConfig.MaxIdleTimeout = idleConnTimeout
 
-			addonCloser = quicTransport
+			quicCloser := &quicTransportCloser{t: quicTransport, c: conn}
+			addonCloser = quicCloser
 			t = &http3.RoundTripper{
 				TLSClientConfig: opt.TLSConfig,
 				QuicConfig:      quicConfig,
@@ -258,7 +260,7 @@ func NewUpstream(addr string, opt Opt) (_ Upstream, err error) {
 					if err != nil {
 						return nil, err
 					}
-					return quicTransport.DialEarly(ctx, ua, tlsCfg, cfg)
+					return quicCloser.dialEarly(ctx, ua, tlsCfg, cfg)
 				},
 				MaxResponseHeaderBytes: 4 * 1024,
 			}
@@ -338,6 +340,7 @@ func NewUpstream(addr string, opt Opt) (_ Upstream, err error) {
 			t.StatelessResetKey = (*quic.StatelessResetKey)(&srk)
 		}
 		closeIfFuncErr(t)
+		quicCloser := &quicTransportCloser{t: t, c: uc}
 
 		dialQuicConn := func(ctx context.Context) (quic.Connection, error) {
 			ua, err := net.ResolveUDPAddr("udp", dialAddr)
@@ -349,7 +352,7 @@ func NewUpstream(addr string, opt Opt) (_ Upstream, err error) {
 			// 2. avoid NextConnection might block forever.
 			// TODO: Remove this workaround.
 			var c quic.Connection
-			ec, err := t.DialEarly(ctx, ua, tlsConfig, quicConfig)
+			ec, err := quicCloser.dialEarly(ctx, ua, tlsConfig, quicConfig)
 			if err != nil {
 				return nil, err
 			}
@@ -366,6 +369,7 @@ func NewUpstream(addr string, opt Opt) (_ Upstream, err error) {
 		return transport.NewQuicTransport(transport.QuicTransportOpts{
 			DialContext: dialQuicConn,
 			Logger:      logger,
+			Closer:      quicCloser,
 		}), nil
 	default:
 		return nil, fmt.Errorf("unsupported protocol [%s]", addrURL.Scheme)
@@ -393,6 +397,64 @@ func (u *udpWithFallback) Close() error {
 	u.u.Close()
 	u.t.Close()
 	return nil
+}
+
+// quicTransportCloser closes a quic.Transport and the socket it was given
+// (quic.Transport.Close does not close a socket that it did not create).
+// All dials go through it: a quic.Transport must not be closed while it is
+// dialing, so Close waits for the last dial in progress to return.
+type quicTransportCloser struct {
+	t *quic.Transport
+	c net.PacketConn
+
+	m       sync.Mutex
+	closed  bool
+	dialing int
+}
+
+func (c *quicTransportCloser) dialEarly(ctx context.Context, addr net.Addr, tlsCfg *tls.Config, cfg *quic.Config) (quic.EarlyConnection, error) {
+	c.m.Lock()
+	if c.closed {
+		c.m.Unlock()
+		return nil, transport.ErrClosedTransport
+	}
+	c.dialing++
+	c.m.Unlock()
+
+	conn, err := c.t.DialEarly(ctx, addr, tlsCfg, cfg)
+
+	c.m.Lock()
+	c.dialing--
+	closeNow := c.closed && c.dialing == 0
+	c.m.Unlock()
+	if closeNow {
+		c.closeTransport()
+		if err == nil {
+			conn, err = nil, transport.ErrClosedTransport
+		}
+	}
+	return conn, err
+}
+
+// Close always returns nil.
+func (c *quicTransportCloser) Close() error {
+	c.m.Lock()
+	if c.closed {
+		c.m.Unlock()
+		return nil
+	}
+	c.closed = true
+	closeNow := c.dialing == 0
+	c.m.Unlock()
+	if closeNow {
+		c.closeTransport()
+	}
+	return nil
+}
+
+func (c *quicTransportCloser) closeTransport() {
+	c.t.Close()
+	c.c.Close()
 }
 
 func newDefaultClientQuicConfig() *quic.Config {
